@@ -1,7 +1,222 @@
-import Buidl.Model.Bcur
+/-
+  C20 — BCUR / bc32 / CBOR air-gap transport reassembles exactly or fails loudly.
+  Property theorems only (helper lemmas: Buidl.Proofs.Polymod, Regroup, Bech32, Bcur,
+  BcurRoundtrip, BcurParse).  Models: Buidl.Model.Bech32 (cbor_*, convertbits, bc32*) and
+  Buidl.Model.Bcur (constants from Buidl.Gen.*, re-extracted from /repo on every run).
+  `sha256` is an arbitrary function returning 32 bytes where the length matters.
+-/
+import Buidl.Proofs.BcurParse
 namespace Buidl.Props.C20
-open Buidl Buidl.Bech32
+open Buidl Buidl.Base58 Buidl.Bech32 Buidl.Bcur
 
-theorem stub_alphabet_length : alphabet.length = 32 := by decide
+/-! ## CBOR byte strings -/
+
+/-- `cbor_encode` is defined exactly for lengths below 2^32 -/
+theorem cbor_encode_domain (d : Bytes) : (cborEncode d).isSome ↔ d.length < 2 ^ 32 :=
+  cborEncode_isSome_iff d
+
+/-- the four layouts, switching exactly at 24, 256 and 65536 (N20a: the prefix byte for the
+    4-byte length is 0x60 in this code, where CBOR has 0x5a) -/
+theorem cbor_encode_layout (d : Bytes) (h : d.length < 2 ^ 32) :
+    cborEncode d = some (
+      if d.length ≤ 23 then UInt8.ofNat (0x40 + d.length) :: d
+      else if d.length ≤ 255 then 0x58 :: UInt8.ofNat d.length :: d
+      else if d.length ≤ 65535 then 0x59 :: (natToBE' 2 d.length ++ d)
+      else 0x60 :: (natToBE' 4 d.length ++ d)) :=
+  cborEncode_eq d h
+
+/-- `cbor_decode (cbor_encode d) = d` for every length the encoder accepts, hence at every
+    prefix boundary -/
+theorem cbor_roundtrip (d e : Bytes) (h : cborEncode d = some e) : cborDecode e = some d :=
+  cborDecode_cborEncode d e h
+
+theorem cbor_encode_injective (d1 d2 e : Bytes) (h1 : cborEncode d1 = some e) (h2 : cborEncode d2 = some e) : d1 = d2 :=
+  cborEncode_injective d1 d2 e h1 h2
+
+example : cborEncode [1, 2, 3] = some [0x43, 1, 2, 3] ∧ cborDecode [0x43, 1, 2, 3] = some [1, 2, 3] ∧
+    (cborEncode (List.replicate 24 7)).map (·.take 2) = some [0x58, 24] := by decide
+
+/-! ## convertbits and bc32 -/
+
+/-- 8 → 5 bits with padding, then 5 → 8 bits without padding, is the identity on byte strings -/
+theorem convertbits_roundtrip (data : Bytes) :
+    ∃ dd, convertbits (data.map (·.toNat)) 8 5 true = some dd ∧ (∀ d ∈ dd, d < 32) ∧
+      convertbits dd 5 8 false = some (data.map (·.toNat)) :=
+  Bech32.convertbits_roundtrip data
+
+/-- `bc32encode` never fails on bytes -/
+theorem bc32_encode_total (data : Bytes) : (bc32encode data).isSome := bc32encode_isSome data
+
+/-- `bc32decode (bc32encode d) = d` -/
+theorem bc32_roundtrip (data : Bytes) (s : Str) (h : bc32encode data = some s) : bc32decode s = some data :=
+  bc32decode_bc32encode data s h
+
+/-- a bc32 text in which one character is replaced by a character with a different lower-case
+    form is refused, at every length (replacing a letter by its other case gives the same text
+    after `lower()` or a mixed-case text, which is refused too) -/
+theorem bc32_single_substitution (pre post : Str) (x y : Char) (hl : asciiLower x ≠ asciiLower y) (d : Bytes)
+    (h : bc32decode (pre ++ x :: post) = some d) : bc32decode (pre ++ y :: post) = none :=
+  bc32decode_single_subst pre post x y hl d h
+
+example : (bc32encode []).isSome ∧ bc32decode [] = none := by decide
+
+/-! ## BCURMulti.encode: chunking -/
+
+/-- integer ceiling arithmetic of the chunking: for a text of `L ≥ 1` characters and
+    `max_size_per_chunk = m ≥ 1`, with `n = ⌈L/m⌉` parts of `cl = ⌈L/n⌉` characters:
+    `1 ≤ cl ≤ m`, and `(n-1)·cl < L ≤ n·cl` (every part non-empty, the last possibly shorter) -/
+theorem chunk_arithmetic (L m : Nat) (hL : 1 ≤ L) (hm : 1 ≤ m) :
+    let n := (L + m - 1) / m
+    let cl := (L + n - 1) / n
+    1 ≤ n ∧ 1 ≤ cl ∧ cl ≤ m ∧ (n - 1) * cl < L ∧ L ≤ n * cl :=
+  chunk_arith L m hL hm
+
+/-- What BCURMulti(data).encode(m) returns, for every payload below 2^32 bytes and every chunk
+    size m ≥ 1: `n = ⌈L/m⌉` parts `ur:bytes/{i+1}of{n}/{enc_hash}/{chunk_i}` whose chunks have
+    `cl = ⌈L/n⌉ ≤ m` characters except the last, which has between 1 and `cl`; the chunks
+    concatenate to the single-part text.  (The code computes the two ceilings with float
+    division; that equals the integer ceiling because `L < 2^36 < 2^53`, see ASSUMPTIONS.) -/
+theorem multi_encode_chunks (sha256 : Bytes → Bytes) (hh : ∀ b, (sha256 b).length = 32) (data : Bytes)
+    (hd : data.length < 2 ^ 32) (m : Nat) (hm : 1 ≤ m) :
+    ∃ enc encHash n cl, bcurEncode sha256 data = some (enc, encHash) ∧ enc.length < 2 ^ 53 ∧
+      multiEncode sha256 data m true =
+        some ((List.range n).map fun i => partStr (i + 1) n encHash ((enc.drop (i * cl)).take cl)) ∧
+      n = (enc.length + m - 1) / m ∧ cl = (enc.length + n - 1) / n ∧ 1 ≤ n ∧ 1 ≤ cl ∧ cl ≤ m ∧
+      ((List.range n).map fun i => (enc.drop (i * cl)).take cl).flatten = enc ∧
+      (∀ i, i + 1 < n → ((enc.drop (i * cl)).take cl).length = cl) ∧
+      (1 ≤ ((enc.drop ((n - 1) * cl)).take cl).length ∧ ((enc.drop ((n - 1) * cl)).take cl).length ≤ cl) := by
+  obtain ⟨enc, encHash, n, cl, he, h1, h2, h3, h4, h5, h6, h7, h8, h9⟩ := multiEncode_chunks sha256 hh data hd m hm
+  obtain ⟨_, enc', encHash', _, _, _, he', _, _, _, _, hlt⟩ := bcurEncode_facts sha256 hh data hd
+  rw [he] at he'; cases he'
+  exact ⟨enc, encHash, n, cl, he, by omega, h1, h2, h3, h4, h5, h6, h7, h8, h9⟩
+
+/-! ## parse ∘ encode -/
+
+/-- BCURSingle: `parse (encode x) = x`, with and without the checksum field -/
+theorem single_roundtrip (sha256 : Bytes → Bytes) (hh : ∀ b, (sha256 b).length = 32) (data : Bytes)
+    (hd : data.length < 2 ^ 32) (useChecksum : Bool) :
+    ∃ s, singleEncode sha256 data useChecksum = some s ∧ singleParse sha256 s = some data :=
+  singleParse_singleEncode sha256 hh data hd useChecksum
+
+/-- BCURMulti: `parse (encode x, chunk size m) = x` for every m ≥ 1, animated or not; the parsed
+    object carries the checksum of the encoder -/
+theorem multi_roundtrip (sha256 : Bytes → Bytes) (hh : ∀ b, (sha256 b).length = 32) (data : Bytes)
+    (hd : data.length < 2 ^ 32) (m : Nat) (hm : 1 ≤ m) (animate : Bool) :
+    ∃ parts enc encHash, bcurEncode sha256 data = some (enc, encHash) ∧
+      multiEncode sha256 data m animate = some parts ∧ multiParse sha256 parts = some (data, some encHash) :=
+  multiParse_multiEncode sha256 hh data hd m hm animate
+
+/-! ## rejection -/
+
+/-- a part that is not at its own position (x ≠ index + 1) makes BCURMulti.parse fail:
+    parts out of order, a missing earlier part, a duplicated part -/
+theorem multi_out_of_order (sha256 : Bytes → Bytes) (parts : List Str) (j : Nat) (hj : j < parts.length) (p : Parsed)
+    (hp : parseBcurHelper parts[j] = some p) (hx : p.x ≠ (j : Int) + 1) : multiParse sha256 parts = none := by
+  unfold multiParse
+  rw [multiLoop_out_of_order parts 0 (some []) 0 [] j hj p hp (by simpa using hx)]
+
+/-- a later part whose checksum field differs from that of the first part makes it fail -/
+theorem multi_checksum_mismatch (sha256 : Bytes → Bytes) (s0 : Str) (rest : List Str) (p0 : Parsed)
+    (hp0 : parseBcurHelper s0 = some p0) (j : Nat) (hj : j < rest.length) (p : Parsed)
+    (hp : parseBcurHelper rest[j] = some p) (hne : p.checksum ≠ p0.checksum) :
+    multiParse sha256 (s0 :: rest) = none := by
+  by_cases hx : p0.x = 1
+  · unfold multiParse
+    rw [multiLoop_first s0 rest p0 hp0 hx,
+      multiLoop_checksum_mismatch rest 1 (Nat.le_refl _) p0.checksum p0.y [p0.payload] j hj p hp hne]
+  · exact multi_out_of_order sha256 (s0 :: rest) 0 (by simp) p0 (by simpa using hp0) (by simpa using hx)
+
+/-- a later part whose y (total number of parts) differs from that of the first part makes it fail -/
+theorem multi_y_mismatch (sha256 : Bytes → Bytes) (s0 : Str) (rest : List Str) (p0 : Parsed)
+    (hp0 : parseBcurHelper s0 = some p0) (j : Nat) (hj : j < rest.length) (p : Parsed)
+    (hp : parseBcurHelper rest[j] = some p) (hne : p.y ≠ p0.y) :
+    multiParse sha256 (s0 :: rest) = none := by
+  by_cases hx : p0.x = 1
+  · unfold multiParse
+    rw [multiLoop_first s0 rest p0 hp0 hx,
+      multiLoop_y_mismatch rest 1 (Nat.le_refl _) p0.checksum p0.y [p0.payload] j hj p hp hne]
+  · exact multi_out_of_order sha256 (s0 :: rest) 0 (by simp) p0 (by simpa using hp0) (by simpa using hx)
+
+/-! ## collision extraction -/
+
+/-- If BCURMulti.parse accepts ANY sequence of parts (missing parts, parts of another payload,
+    corrupted characters, …) under a non-empty checksum text `cs`, and `cs` is the checksum that
+    `bcur_encode` computes for the payload `d0`, then the accepted data is `d0`, or two different
+    byte strings with the same SHA-256 are exhibited. -/
+theorem multi_collision_extraction (sha256 : Bytes → Bytes) (parts : List Str) (d : Bytes) (cs : Str) (hcs : cs ≠ [])
+    (h : multiParse sha256 parts = some (d, some cs)) (d0 : Bytes) (enc0 : Str)
+    (h0 : bcurEncode sha256 d0 = some (enc0, cs)) :
+    d = d0 ∨ ∃ c c0 : Bytes, c ≠ c0 ∧ sha256 c = sha256 c0 := by
+  have hd : ∃ cbor, cborEncode d = some cbor ∧ bc32encode (sha256 cbor) = some cs := by
+    unfold multiParse at h
+    cases hl : multiLoop parts 0 (some []) 0 [] with
+    | none => simp [hl] at h
+    | some r =>
+      obtain ⟨gc, pls⟩ := r
+      rw [hl] at h
+      simp only at h
+      cases hdec : bcurDecode sha256 pls.flatten gc with
+      | none => simp [hdec] at h
+      | some data =>
+        rw [hdec] at h
+        simp only at h
+        cases hc : construct sha256 data none gc with
+        | none => simp [hc] at h
+        | some r2 =>
+          simp only [hc, Option.map_some, Option.some.injEq, Prod.mk.injEq] at h
+          obtain ⟨rfl, rfl⟩ := h
+          exact construct_checksum sha256 data none cs hcs r2 hc
+  have hd0 : ∃ cbor, cborEncode d0 = some cbor ∧ bc32encode (sha256 cbor) = some cs := by
+    unfold bcurEncode at h0
+    cases hc : cborEncode d0 with
+    | none => simp [hc] at h0
+    | some cbor =>
+      cases h1 : bc32encode cbor with
+      | none => simp [hc, h1] at h0
+      | some e1 =>
+        cases h2 : bc32encode (sha256 cbor) with
+        | none => simp [hc, h1, h2] at h0
+        | some e2 =>
+          simp [hc, h1, h2] at h0
+          exact ⟨cbor, rfl, by rw [h2, h0.2]⟩
+  exact checksum_collision sha256 d d0 cs hd hd0
+
+/-- the same for BCURSingle.parse of a string that carries a checksum field -/
+theorem single_collision_extraction (sha256 : Bytes → Bytes) (s : Str) (d : Bytes) (p : Parsed) (cs : Str) (hcs : cs ≠ [])
+    (hp : parseBcurHelper s = some p) (hpc : p.checksum = some cs) (h : singleParse sha256 s = some d)
+    (d0 : Bytes) (enc0 : Str) (h0 : bcurEncode sha256 d0 = some (enc0, cs)) :
+    d = d0 ∨ ∃ c c0 : Bytes, c ≠ c0 ∧ sha256 c = sha256 c0 := by
+  have hd : ∃ cbor, cborEncode d = some cbor ∧ bc32encode (sha256 cbor) = some cs := by
+    unfold singleParse at h
+    rw [hp] at h
+    simp only at h
+    split at h
+    · cases h
+    · cases hdec : bcurDecode sha256 p.payload p.checksum with
+      | none => simp [hdec] at h
+      | some data =>
+        rw [hdec] at h
+        simp only at h
+        cases hc : construct sha256 data (some p.payload) p.checksum with
+        | none => simp [hc] at h
+        | some r2 =>
+          simp only [hc, Option.map_some, Option.some.injEq] at h
+          subst h
+          rw [hpc] at hc
+          exact construct_checksum sha256 data (some p.payload) cs hcs r2 hc
+  have hd0 : ∃ cbor, cborEncode d0 = some cbor ∧ bc32encode (sha256 cbor) = some cs := by
+    unfold bcurEncode at h0
+    cases hc : cborEncode d0 with
+    | none => simp [hc] at h0
+    | some cbor =>
+      cases h1 : bc32encode cbor with
+      | none => simp [hc, h1] at h0
+      | some e1 =>
+        cases h2 : bc32encode (sha256 cbor) with
+        | none => simp [hc, h1, h2] at h0
+        | some e2 =>
+          simp [hc, h1, h2] at h0
+          exact ⟨cbor, rfl, by rw [h2, h0.2]⟩
+  exact checksum_collision sha256 d d0 cs hd hd0
 
 end Buidl.Props.C20
